@@ -121,6 +121,8 @@ def main(argv):
         print('usage: run <ID> quick|thorough [--replay FILE] [--only REGEX] [--jobs N]')
         return 3
     prop, tier = argv[1], argv[2]
+    if tier == 'thorough':
+        os.environ.setdefault('VERIF_XCHECK', '3')
     only = None
     jobs_n = min(16, os.cpu_count() or 4)
     replay_file = None
@@ -184,6 +186,8 @@ def main(argv):
     for r in results:
         j = r['job']
         st = r['status']
+        if r.get('stats', {}).get('xcheck_disagree'):
+            errors.append('%s: cvc5 disagrees with z3 on %d verdict queries' % (j['id'], r['stats']['xcheck_disagree']))
         if st == 'holds':
             if r.get('twin') not in (None, 'cex'):
                 errors.append('%s: reachability twin came back %s (vacuous obligation)' % (j['id'], r.get('twin')))
